@@ -184,6 +184,10 @@ fn main() {
     let max_words = run.pick(4, 5);
     let seqs = sequences(WORDS.len(), max_words);
     if let Some(n) = run.describe_unit() {
+        if n as usize >= seqs.len() {
+            println!("{}", json!({"multi_letter_phase_unit": n as usize - seqs.len()}));
+            return;
+        }
         let words: Vec<&str> = seqs[n as usize].iter().map(|i| WORDS[*i]).collect();
         println!("{}", json!({"a_words": words, "b": format!("every sequence of at most {max_words} words over {WORDS:?}"), "texts": FORMATS, "ignore_case": [false, true]}));
         return;
@@ -209,6 +213,23 @@ fn main() {
     );
     run.assumptions.push("only ASCII whitespace separates words (predicate enforced per case): there the code's ASCII split and a Unicode whitespace split agree".into());
     run.assumptions.push("case-insensitive word equality is str::to_lowercase on both words; all enumerated words are ASCII".into());
+    // phase 2: words of more than one letter that share prefixes, suffixes and differ in case only in
+    // the middle (word equality must compare whole words); single-space layout, via the
+    // self-contained per-text check
+    let w2 = ["a", "ab", "aB", "b", "bab", "ba"];
+    let seqs2 = sequences(w2.len(), run.pick(3, 4));
+    let texts2: Vec<String> = seqs2.iter().map(|s| s.iter().map(|i| w2[*i]).collect::<Vec<_>>().join(" ")).collect();
+    run.bounds.insert("multi_letter_phase".into(), json!(format!("all ordered pairs of the {} word sequences over {w2:?} x ignore_case, single-space layout", seqs2.len())));
+    for (ia, a) in texts2.iter().enumerate() {
+        if !run.unit((texts.len() + ia) as u64) {
+            continue;
+        }
+        for b in &texts2 {
+            for ic in [false, true] {
+                check_texts(&mut run, a, b, ic);
+            }
+        }
+    }
     for (ia, ta) in texts.iter().enumerate() {
         if !run.unit(ia as u64) {
             continue;
